@@ -90,6 +90,17 @@ check('C11', E2,
       'each read operation consumes exactly the chunk delivered for it (unique token per chunk); interact() logging is judged in C15',
       'DESIGN.md 3 C11')
 
+check('C09', E2 + ' + ProcSim (mc/conform_procsim.py)',
+      'exhaustive enumeration of fate x observation sequences (all 630 fates x sequences <= 2; 12 representative fates x sequences <= 3) with a DFS over every placement of the death among the intercepted system calls; simulated process table bound to the real kernel by replaying every kill/waitpid sequence <= 4 on real /bin/sh children',
+      'After every operation: once the object claims/observes the death, exitstatus/signalstatus/status/terminated must equal the truth held by the process table and never change; wait()/run()/PopenSpawn.wait return it; all real exit codes and signals checked once through real children.',
+      'ProcSim status words and signal semantics validated against the kernel (counts in evidence: env_traces_validated_against_real_kernel); a read that hit EOF counts as an observation when it refreshed the status (documented way: expect(EOF) then isalive/close)',
+      'DESIGN.md 3 C09')
+check('C10', E2 + ' + ProcSim',
+      'exhaustive enumeration of lifecycle operation sequences (length <= 4) x child dispositions x transports with nested DFS over signal-latency and mid-sequence-exit placements; invariants after every operation; decoy file on the released descriptor number',
+      'Every sequence over 14 pty operations (7 for fd/socket) from every disposition is executed on real descriptors; liveness truthfulness, reaping after close/terminate(force), idempotent close, descriptor release, no stale child_fd, I/O after close fails without touching the new owner of the descriptor number, no foreign exception classes.',
+      'process table simulated (validated, see C09); fatal signals act immediately or after 0.05 s (< delayafterterminate); wait() on a child that never exits is skipped as documented blocking',
+      'DESIGN.md 3 C10')
+
 NOT_BUILT = {}
 
 
